@@ -63,7 +63,7 @@ func genBaseH(t *rapid.T, mode string) (*model.G, []byte, []refwkb.Field, []int)
 func genBaseM(t *rapid.T, mode string) (*model.G, []byte, []refwkb.Field, []int, []bool) {
 	o := gen.TreeOpts{
 		Layouts: gen.Layouts4, Floats: gen.SmallInt | gen.CanonNaN | gen.Infs, MaxDepth: 3, MaxParts: 3, MaxPts: 4,
-		MixLayouts: rapid.Bool().Draw(t, "mix"), FixEmptyCollections: true, PEmpty: 20,
+		MixLayouts: rapid.Bool().Draw(t, "mix"), FixEmptyCollections: true, PEmpty: 20, LongPct: 3, LongMax: 200,
 	}
 	if mode == "ewkb" {
 		o.SRID = gen.SRIDs
@@ -121,7 +121,7 @@ func put32(data []byte, off int, v uint32) {
 
 func genCase(t *rapid.T) Case {
 	mode := rapid.SampledFrom([]string{"ewkb", "wkb-nan", "wkb-err"}).Draw(t, "mode")
-	class := rapid.SampledFrom([]string{"forgery", "forgery", "mutant", "mutant", "mutant", "valid", "splice"}).Draw(t, "class")
+	class := rapid.SampledFrom([]string{"forgery", "forgery", "mutant", "mutant", "mutant", "valid", "splice", "atlimit"}).Draw(t, "class")
 	_, data, fields, typeWords, typeWordBE := genBaseM(t, mode)
 	c := Case{Class: class, Mode: mode}
 	limitSet := []int{0, 1, 3, 64, 4096}
@@ -138,6 +138,40 @@ func genCase(t *rapid.T) Case {
 		}
 	}
 	switch class {
+	case "atlimit":
+		// a geometry with long first components whose ring / member / point count is raised
+		// to exactly what its limit allows, the input ending where it ended before: nothing
+		// is above a limit, so the decode runs into the end of the input - having allocated
+		// no more than the bound allows, whatever it reserves ahead
+		o := gen.TreeOpts{
+			Layouts: gen.Layouts4, Kinds: []string{model.Polygon, model.MultiLineString, model.MultiPolygon, model.MultiPoint, model.LineString},
+			Floats: gen.SmallInt, MaxParts: 3, MaxPts: 4, PEmpty: 5, LongPct: 70, LongMax: 300,
+		}
+		g := gen.Tree(t, o)
+		var err error
+		data, fields, typeWords, typeWordBE, err = refwkb.EncodeMixed(g, rapid.Bool().Draw(t, "axdr"), refMode(mode), nil)
+		if err != nil {
+			panic(err)
+		}
+		for i := range c.Limits {
+			c.Limits[i] = rapid.SampledFrom([]int{64, 4096, 4096}).Draw(t, "alimit")
+		}
+		var cand []refwkb.Field
+		for _, f := range fields {
+			if f.Level > 0 && int(f.Value) <= c.Limits[f.Level-1] {
+				cand = append(cand, f)
+			}
+		}
+		if len(cand) == 0 {
+			c.Class = "valid"
+			break
+		}
+		// the outermost count first (it is the one that sees the long first component)
+		f := cand[0]
+		if rapid.IntRange(0, 3).Draw(t, "afield") == 0 {
+			f = rapid.SampledFrom(cand).Draw(t, "afieldany")
+		}
+		put32o(data, f.Offset, uint32(c.Limits[f.Level-1]), f.BigEndian)
 	case "valid":
 		// half of the valid encodings are decoded under limits that are exactly the
 		// largest count they hold at each level: a count equal to its limit does not
@@ -198,6 +232,12 @@ func genCase(t *rapid.T) Case {
 					f := rapid.SampledFrom(fields).Draw(t, "field")
 					if f.Offset+4 <= len(data) {
 						v := rapid.SampledFrom(append([]uint32{0, 1, 2, 5, 65, 4097}, hostile...)).Draw(t, "v")
+						// a count that claims as much as its limit allows (and no more), with
+						// nothing behind it: legal as far as the limit goes, so whatever is
+						// reserved for it must still be within the bound
+						if f.Level > 0 && c.Limits[f.Level-1] > 0 && rapid.Bool().Draw(t, "atlimit") {
+							v = uint32(c.Limits[f.Level-1] - rapid.IntRange(0, 1).Draw(t, "below"))
+						}
 						put32o(data, f.Offset, v, f.BigEndian)
 					}
 				}
